@@ -30,6 +30,9 @@ Rules applied to extracted text (recorded in evidence as coverage.extraction.dro
  10 (opt-in, `unpin_receiver`) `self: Pin<&mut Self>` -> `&mut self`; `let this = Pin::into_inner(self);` deleted and the
     alias `this` renamed to `self`; 10b: `mut self: Pin<&mut Self>` used through DerefMut -> `&mut self`;
     10c: `path::m(self.as_mut(), args)` -> `self.m(args)`
+ 12 (opt-in, `closure N params=".." ret=".."`) the N-th closure of the body gets typed parameters, a named return value and
+    a contract (`|p| e` -> `|p: &T| -> (o: R) ensures .. { e }`); the closure body is untouched
+ 13 (opt-in, `emit_as X`) the function is emitted under the identifier X (same text verified against another part of its contract)
 """
 import hashlib
 import json
@@ -194,6 +197,8 @@ def build(template_path, repo, out_path, drop_tags=()):
             loopspec = {}
             body_prefix = []
             oname = None
+            emit_as = None
+            closurespec = {}
             cur = contract
             i += 1
             while i < len(lines) and lines[i].strip() != "//@ end":
@@ -213,6 +218,8 @@ def build(template_path, repo, out_path, drop_tags=()):
                         wild = True
                     elif d.startswith("name "):
                         oname = d[5:].strip()
+                    elif d.startswith("emit_as "):
+                        emit_as = d[8:].strip()
                     elif d.startswith("loop "):
                         f = d.split()
                         n = int(f[1])
@@ -222,6 +229,13 @@ def build(template_path, repo, out_path, drop_tags=()):
                                 itn = x[3:]
                         loopspec[n] = {"it": itn, "lines": []}
                         cur = loopspec[n]["lines"]
+                    elif d.startswith("closure "):
+                        # rule 12: //@ closure N params="p: &T" ret="o: R"   followed by requires/ensures lines
+                        mm = re.match(r'closure (\d+) params="([^"]*)" ret="([^"]*)"$', d)
+                        if not mm:
+                            raise ExtractError(f"template {name}: malformed closure directive `{s2}`")
+                        closurespec[int(mm.group(1))] = {"params": mm.group(2), "ret": mm.group(3), "lines": []}
+                        cur = closurespec[int(mm.group(1))]["lines"]
                     elif d == "body_prefix":
                         cur = body_prefix
                     elif d == "contract":
@@ -342,6 +356,11 @@ def build(template_path, repo, out_path, drop_tags=()):
                         nren += 1
                 unit.drops["pinned_receivers_unwrapped"] = unit.drops.get("pinned_receivers_unwrapped", 0) + 1
                 unit.drops["alias_this_renamed_to_self"] = unit.drops.get("alias_this_renamed_to_self", 0) + nren
+            if emit_as:
+                # rule 13: the function is emitted under another identifier, so that the same body can be verified a
+                # second time against another part of its contract (keeps each solver query small)
+                edits.append((ltoks[kwl + 1].s, ltoks[kwl + 1].e, emit_as))
+                unit.drops["functions_emitted_under_second_name"] = unit.drops.get("functions_emitted_under_second_name", 0) + 1
             if ret:
                 if arrow is None:
                     raise ExtractError(f"`{path[-1]}`: ret named but fn has no return type")
@@ -375,6 +394,21 @@ def build(template_path, repo, out_path, drop_tags=()):
                     edits.append((ltoks[k].e, ltoks[k].e, f" {ls['it']}:"))
                     unit.drops["for_iterators_named"] += 1
                 edits.append((ltoks[lbo].s, ltoks[lbo].s, "\n" + "\n".join(ls["lines"]) + "\n"))
+            if closurespec:
+                # rule 12: the N-th closure expression of the body (in source order, tracing invocations excluded) gets
+                # typed parameters, a named return value and a contract: `|p| e`  ->
+                # `|p: &T| -> (o: R) ensures .. { e }`.  The closure body is untouched.
+                removed = [(e0, e1) for (e0, e1, _r) in edits if e1 > e0]
+                cl = _closures_in(ltoks, bol + 1, bcl, removed)
+                for n, cs in closurespec.items():
+                    if n >= len(cl):
+                        raise ExtractError(f"anchor lost: `{path[-1]}` has {len(cl)} closures, contract names closure {n}")
+                    p0, p1, b0, b1, braced = cl[n]
+                    edits.append((ltoks[p0].s, ltoks[p1].e, f"|{cs['params']}| -> ({cs['ret']})\n" + "\n".join(cs["lines"]) + "\n"))
+                    if not braced:
+                        edits.append((ltoks[b0].s, ltoks[b0].s, "{ "))
+                        edits.append((ltoks[b1].e, ltoks[b1].e, " }"))
+                    unit.drops["closure_contracts_spliced"] = unit.drops.get("closure_contracts_spliced", 0) + 1
             if tailc:
                 te = _tail_continue_edits(ltoks, loops)
                 unit.drops["tail_continue_rewritten"] += len(te)
@@ -382,7 +416,7 @@ def build(template_path, repo, out_path, drop_tags=()):
             else:
                 pass
             text2 = rslex.apply_edits(text, edits)
-            fname = oname or path[-1].split()[-1]
+            fname = oname or emit_as or path[-1].split()[-1]
             owner = ""
             if len(path) >= 2 and path[-2].startswith("impl"):
                 owner = path[-2].split()[-1]
@@ -392,7 +426,8 @@ def build(template_path, repo, out_path, drop_tags=()):
                              "lines": [_line_of(src, toks[st].s), _line_of(src, toks[en].e)],
                              "sha256": hashlib.sha256(text.encode()).hexdigest(),
                              "contract": ctext.strip(),
-                             "loop_invariants": {str(k): "\n".join(v["lines"]).strip() for k, v in loopspec.items()}})
+                             "loop_invariants": {str(k): "\n".join(v["lines"]).strip() for k, v in loopspec.items()},
+                             "closure_contracts": {str(k): "\n".join(v["lines"]).strip() for k, v in closurespec.items()}})
             unit.expect.append(full)
             emit(text2, full)
             continue
@@ -413,6 +448,49 @@ def build(template_path, repo, out_path, drop_tags=()):
     with open(out_path, "w") as f:
         f.write(unit.text)
     return unit
+
+
+def _closures_in(ltoks, a, b, removed):
+    """closure expressions between token indices a..b: (first `|`, second `|`, body first tok, body last tok, braced)"""
+    res = []
+    k = a
+    while k < b:
+        t = ltoks[k]
+        if any(e0 <= t.s and t.e <= e1 for (e0, e1) in removed):
+            k += 1
+            continue
+        prev = ltoks[k - 1].t if k > 0 else ""
+        if t.t in ("|", "||") and prev in ("(", ",", "=", "move", "{", ";", "=>"):
+            if t.t == "||":
+                p0 = p1 = k
+            else:
+                p0 = k
+                p1 = k + 1
+                while ltoks[p1].t != "|":
+                    p1 += 1
+            b0 = p1 + 1
+            if ltoks[b0].t == "{":
+                b1 = rslex.match_close(ltoks, b0)
+                res.append((p0, p1, b0, b1, True))
+            else:
+                d = 0
+                j = b0
+                while j < b:
+                    x = ltoks[j].t
+                    if x in ("(", "[", "{"):
+                        d += 1
+                    elif x in (")", "]", "}"):
+                        if d == 0:
+                            break
+                        d -= 1
+                    elif x == "," and d == 0:
+                        break
+                    j += 1
+                res.append((p0, p1, b0, j - 1, False))
+            k = b0
+            continue
+        k += 1
+    return res
 
 
 SEMANTIC = ("postcondition not satisfied", "precondition not satisfied", "assertion failed",
